@@ -4,7 +4,7 @@ import math, os
 from fractions import Fraction
 from common import *
 from engine import Case
-from veclib import hx, coq_fvec
+from veclib import hx, coq_fvec, vop_line, op_kinds, ref_vstep, ref_vhist, streams_match, RefPanic
 
 PID = "C16"
 IMPORTS = "From Coq Require Import Uint63.\nFrom OV Require Import Model.Vector Model.ParDot."
@@ -17,7 +17,14 @@ RULE = ("vec.pardot cases, the executor re-run under `taskset -c <first k CPUs o
         "(length, k)) a case on arbitrary f64 data and/or one on small-integer data whose partial sums are exact (both for lengths <= 64, "
         "alternating above in the quick tier; both everywhere in the thorough tier), plus seeded "
         "longer lengths (201..1200 quick, ..4000 thorough); every case calls dot_f64 3 times (5 thorough), a share of them under spinning background "
-        "threads; distinct = distinct executor line x affinity; non-trivial = length >= 1")
+        "threads; special structure (package specB), for every k: lengths 0, 1, 2, k-1, k, k+1, 2k-1, 2k, 2k+1, 5k+k/2, 8k-1 x one or two data classes drawn per (k, length) (all ten in the thorough tier) out of (constant vectors, "
+        "alternating signs with exact cancellation, zero and -0.0 vectors, one non-zero product at the first / last / middle index, one entry 2^40 among ones "
+        "[exact in every order], one entry 2^60 among ones and +-1e16 pairs [every order rounds differently], the ramp 1..n), each such (k, length) also with BOTH "
+        "OPERANDS THE SAME OBJECT v.dot_f64(&v) (kind vec.pardot_self, model term of v.v) and (a third of them; all in the thorough tier) with an equal copy; mismatched sizes in both directions and with an "
+        "empty operand ((1,2), (0,1), (1,0), (k,k+1), (k+1,k), (0,2k), (3k,0)); dot_f64 AFTER an edit history of the vector (push / push_front / insert / pop / resize / "
+        "swap / clear / set / assign / sort: capacity differs from length, second operand with spare capacity too; kind vec.pardot_after, model term on the edited vector); "
+        "edits INTERLEAVED with dot_f64 calls on one vector in one process (vec.hist with the op dot_f64; search-only, every call bit-identical to the exact integer value); "
+        "distinct = distinct executor line x affinity; non-trivial = length >= 1")
 TRUSTED = ["Coq 8.16.1 kernel + vm_compute (primitive floats: bit-exact IEEE binary64)", "Flocq 4 (IEEE754.PrimFloat, BinarySingleNaN) and Coq's FloatAxioms for pardot_exact_float", "Rust executor /verif/harness (kind vec.pardot), `taskset`",
            "python driver: generators, exact Fraction reference, stream comparator (bitwise for this property)",
            "hand-written Gallina model coq/Model/ParDot.v tied to src/vector/vec_f64.rs:73-109 by bitwise differential execution under every affinity 1..16",
@@ -48,7 +55,9 @@ MANIFEST = dict(
           "chunked sum in the standard rounding model: pardot_forward_error(_tight), pardot_vs_dot_reassociation, sched_forward_error. Tie: the executor is re-run under taskset for every CPU count "
           "1..16, reports num_cpus::get() in-process, and every result for every length 0..200 (plus longer ones) is compared "
           "bitwise with vm_compute of the float instance of the same model for that worker count, with the sequential dot, across "
-          "repetitions, and (oracle) with an exact rational reference."),
+          "repetitions, and (oracle) with an exact rational reference; the same comparison with both operands the same object, after edit histories of "
+          "the operands (capacity different from length), on mismatched sizes in both directions, and on structured data (constant, cancelling, one huge entry) "
+          "at the lengths around every multiple of the worker count."),
     note=("Data races / torn reads at the machine level are excluded by Rust's scoped-thread borrowing rules, not proved (the interleaving model has atomic "
           "statements); the reassociation error bound is a theorem in the standard rounding model and a search against an exact rational reference at binary64; pardot_exact_float rests on the "
           "primitive-float specification axioms of Coq's standard library (FloatAxioms) and the classical axioms of the Reals (Flocq)."),
@@ -136,6 +145,127 @@ def mk_hist(ks, n, seed):
     meta = {"hist": list(ks), "v": v, "w": w, "exact": True, "seed": seed, "n": n}
     return Case('f64', line, tm, meta=meta, family="affinity-history", nontrivial=(n >= 1), tol=0.0, exact_bits=True)
 
+# ------------------------------------------------------------------ (specB) special structure
+def mk_self(k, v, reps, busy, exact, family):
+    """both operands the SAME object: v.dot_f64(&v) (executor kind vec.pardot_self; same answer format and model term as vec.pardot v v)"""
+    c = mk(k, v, list(v), reps, busy, exact, family)
+    c.line = "vec.pardot_self %s %d %d" % (tok_vec('f64', v), reps, busy)
+    c.meta["self"] = True
+    return c
+
+def edited(v0, ops):
+    v = list(v0)
+    for op in ops:
+        snap = list(v)
+        try: ref_vstep('f64', v, op)
+        except RefPanic: v = snap
+    return v
+
+def mk_after(k, v0, ops, w, reps, busy, family):
+    """dot_f64 on a vector that went through an edit history first (spare capacity, stale elements beyond the length), w with spare
+    capacity too (executor kind vec.pardot_after; model term of vec.pardot on the edited vector).  Integer data: exact sums."""
+    v = edited(v0, ops)
+    c = mk(k, v, w, reps, busy, True, family)
+    c.line = "vec.pardot_after %s %s %d %d %s" % (tok_vec('f64', v0), tok_vec('f64', w), reps, busy, " ".join(vop_line('f64', o) for o in ops))
+    c.meta["after"] = {"v0": v0, "ops": [list(o) for o in ops]}
+    return c
+
+def mk_edit_hist(k, v0, ops):
+    """one vector, edits and dot_f64 calls interleaved in one process (vec.hist with the op dot_f64): search-only, judged against the
+    plain list model; integer data, so every dot_f64 must equal the sequential dot and the exact value bit for bit"""
+    line = "vec.hist " + tok_vec('f64', v0) + " " + " ".join(vop_line('f64', o) for o in ops)
+    meta = {"_env": {"taskset": ",".join(str(c) for c in CPUS[:k])}, "k": k, "edit_hist": {"v0": v0, "ops": [list(o) for o in ops]}}
+    return Case('f64', line, None, meta=meta, family="edit-dot-history", nontrivial=True, tol=0.0, exact_bits=True)
+
+def structured_data(g, n, cls):
+    """(v, w, exact): data classes on which a changed partition, a dropped element or a changed reduction order shows"""
+    c = float(g.range(1, 9)); d = float(g.range(1, 9)) * g.choice([1.0, -1.0])
+    pos = g.choice([0, n - 1, n // 2, n // 3]) if n > 0 else 0
+    if cls == "constant": return [c] * n, [d] * n, True
+    if cls == "alternating": return [c if i % 2 == 0 else -c for i in range(n)], [d] * n, True            # exact cancellation
+    if cls == "alternating-both": return [c if i % 2 == 0 else -c for i in range(n)], [d if i % 2 == 0 else -d for i in range(n)], True
+    if cls == "zero": return [0.0] * n, [ival(g) for _ in range(n)], True
+    if cls == "negzero": return [-0.0] * n, [1.0] * n, True
+    if cls == "unit":                                                                                          # one non-zero product
+        v = [0.0] * n
+        if n: v[pos] = c
+        return v, [ival(g) for _ in range(n)], True
+    if cls == "huge-tiny-exact":                                                                               # 2^40 + (n-1): exact in any order
+        v = [1.0] * n
+        if n: v[pos] = 2.0 ** 40
+        return v, [1.0] * n, True
+    if cls == "huge-tiny":                                                                                     # 2^60 + many ones: every order rounds differently
+        v = [1.0] * n
+        if n: v[pos] = 2.0 ** 60
+        return v, [1.0] * n, False
+    if cls == "cancel-huge":                                                                                   # +-1e16 pairs around small terms
+        v = [(1e16 if i % 4 == 0 else (-1e16 if i % 4 == 2 else float(i % 7))) for i in range(n)]
+        return v, [1.0] * n, False
+    if cls == "ramp": return [float(i + 1) for i in range(n)], [1.0] * n, True                              # sum = n(n+1)/2: a lost index is visible
+    raise ValueError(cls)
+
+DATA_CLASSES = ["constant", "alternating", "alternating-both", "zero", "negzero", "unit", "huge-tiny-exact", "huge-tiny", "cancel-huge", "ramp"]
+
+def boundary_lengths(k):
+    return sorted(set([0, 1, 2, max(k - 1, 0), k, k + 1, 2 * k - 1, 2 * k, 2 * k + 1, 5 * k + k // 2, 8 * k - 1]))
+
+EDIT_NAMES = ["push", "push", "push_front", "insert", "pop", "pop", "resize", "swap", "clear", "set", "assign", "sort"]
+def rand_edit(g, n):
+    name = g.choice(EDIT_NAMES)
+    x = ival(g)
+    if name in ("push", "push_front", "assign"): return (name, x)
+    if name == "insert": return (name, g.choice([0, n, n // 2]), x)
+    if name in ("pop", "clear", "sort"): return (name,)
+    if name == "resize": return (name, g.choice([0, n // 2, n, n + 1, n + 5]))
+    if name == "swap": return (name, 0, max(n - 1, 0))
+    if name == "set": return (name, g.choice([0, max(n - 1, 0)]), x)
+    raise ValueError(name)
+
+def rand_edits(g, v0, count):
+    ops = []; v = list(v0)
+    for _ in range(count):
+        o = rand_edit(g, len(v)); ops.append(o); v = edited(v, [o])
+    return ops, v
+
+def specb_cases(rng, tier, ks, reps):
+    cases = []
+    thorough = tier == "thorough"
+    for k in ks:
+        g = rng.fork("specB-k%d" % k)
+        # (1) data classes x lengths around the multiples of the worker count; every (k, length) also with both operands the same object
+        for n in boundary_lengths(k):
+            for cls in (DATA_CLASSES if thorough else [g.choice(DATA_CLASSES)] + ([g.choice(DATA_CLASSES)] if g.chance(1, 3) else [])):
+                v, w, exact = structured_data(g, n, cls)
+                cases.append(mk(k, v, w, reps, 2 if g.chance(1, 16) else 0, exact, "data-" + cls))
+            v = [ival(g) for _ in range(n)]
+            cases.append(mk_self(k, v, reps, 0, True, "same-object"))
+            if thorough or g.chance(1, 3):
+                cases.append(mk(k, v, list(v), reps, 0, True, "equal-copy"))
+            if thorough or g.chance(1, 4):
+                v = [fval(g) for _ in range(n)]
+                cases.append(mk_self(k, v, reps, 0, False, "same-object"))
+        # (2) mismatched sizes in BOTH directions, with an empty operand, around the worker count
+        for (a, b) in [(1, 2), (0, 1), (1, 0), (k, k + 1), (k + 1, k), (0, 2 * k), (3 * k, 0)]:
+            cases.append(mk(k, [ival(g) for _ in range(a)], [ival(g) for _ in range(b)], 1, 0, True, "size-mismatch"))
+        # (3) histories: edits first (capacity != length), then dot_f64; and edits interleaved with dot_f64 calls in one process
+        for h in range(12 if thorough else 4):
+            v0 = [ival(g) for _ in range(g.choice([0, 1, 2, k, k + 1, g.range(0, 40)]))]
+            ops, v = rand_edits(g, v0, g.range(1, 8))
+            if h == 0:
+                o = ("push", ival(g)); ops = [o]; v = edited(v0, ops)                             # the shortest history: one push
+            if h == 1:
+                ops = [("pop",)] if v0 else [("push", 1.0), ("push", 2.0), ("pop",)]; v = edited(v0, ops)
+            w = [ival(g) for _ in range(len(v))]
+            cases.append(mk_after(k, v0, ops, w, reps, 0, "after-edits"))
+        for h in range(6 if thorough else 2):
+            v0 = [ival(g) for _ in range(g.choice([0, 1, k, g.range(0, 24)]))]
+            ops = []; v = list(v0)
+            for _ in range(g.range(2, 6)):
+                es, v = rand_edits(g, v, g.range(1, 4)); ops += es
+                ops.append(("dot_f64", [ival(g) for _ in range(len(v))]))
+            cases.append(mk_edit_hist(k, v0, ops))
+    return cases
+
 def generate(rng, tier):
     cases = []
     reps = 5 if tier == "thorough" else 3
@@ -170,6 +300,8 @@ def generate(rng, tier):
             cases.append(mk(k, v, w, reps, 2 if g.chance(1, 3) else 0, ex, "long-" + ("exact" if ex else "arbitrary")))
         # mismatched sizes: the guard fires before anything is spawned
         cases.append(mk(k, [1.0, 2.0], [1.0], 1, 0, True, "size-mismatch"))
+    # special structure (package specB): data classes, same-object operands, both mismatch directions, calls after edits
+    cases += specb_cases(rng, tier, ks, reps)
     # affinity histories inside one process (widening and narrowing masks): seeded mutation C16-8 cached the CPU count
     kmax = min(len(CPUS), 16)
     if kmax >= 2:
@@ -191,6 +323,16 @@ def case_from_json(j):
         return mk_hist(m["hist"], m["n"], m["seed"]) if max(m["hist"]) <= len(CPUS) else None
     if m["k"] > len(CPUS):
         return None          # this affinity cannot be set on the present machine
+    F = lambda xs: [float(x) for x in xs]
+    def ops_of(os_):
+        out = []
+        for o in os_:
+            args = [int(a) if kd == 'n' else (F(a) if kd == 'v' else float(a)) for kd, a in zip(op_kinds(o[0]), o[1:])]
+            out.append(tuple([o[0]] + args))
+        return out
+    if "edit_hist" in m: return mk_edit_hist(m["k"], F(m["edit_hist"]["v0"]), ops_of(m["edit_hist"]["ops"]))
+    if "after" in m: return mk_after(m["k"], F(m["after"]["v0"]), ops_of(m["after"]["ops"]), F(m["w"]), m.get("reps", 3), m.get("busy", 0), "corpus")
+    if m.get("self"): return mk_self(m["k"], F(m["v"]), m.get("reps", 3), m.get("busy", 0), m.get("exact", False), "corpus")
     return mk(m["k"], [float(x) for x in m["v"]], [float(x) for x in m["w"]], m.get("reps", 3), m.get("busy", 0), m.get("exact", False), "corpus")
 
 def oracle_hist(case, items):
@@ -207,13 +349,27 @@ def oracle_hist(case, items):
                     "dot = %r, exact value %s" % (len(v), i + 1, ks[:i + 1], t, bits_f64(par), bits_f64(seq), exact))
     return None
 
+def oracle_edit_hist(case, items):
+    """edits and dot_f64 calls interleaved (integer data): the whole stream against the plain list model, floats bit for bit"""
+    m = case.meta["edit_hist"]
+    exp = ref_vhist('f64', m["v0"], [tuple(o) for o in m["ops"]])
+    d = streams_match(exp, items, 0.0)
+    if d: return "edits interleaved with dot_f64 calls (integer data, %d CPUs): %s" % (case.meta["k"], d)
+    return None
+
 def oracle(case, items):
     m = case.meta
     if "hist" in m: return oracle_hist(case, items)
+    if "edit_hist" in m: return oracle_edit_hist(case, items)
     v, w, k, reps = m["v"], m["w"], m["k"], m["reps"]
     if len(v) != len(w):
         if not (items and items[-1][0] == 'P'):
             return "dot_f64 on vectors of sizes %d and %d did not panic" % (len(v), len(w))
+        # (specB) the panic must come from dot_f64 itself: the executor calls dot_f64 first and the sequential dot (which
+        # rejects the sizes too) last, so a value before the panic token means that dot_f64 accepted the mismatch
+        got = [bits_f64(it[1]) for it in items if it[0] == 'f']
+        if got:
+            return "dot_f64 on vectors of sizes %d and %d returned %r instead of rejecting the sizes (%s workers)" % (len(v), len(w), got[0], items[0][1])
         return None
     if any(it[0] == 'P' for it in items):
         return "dot_f64 panicked (%s) on vectors of length %d with %s workers" % (items[-1][1], len(v), items[0][1] if items else "?")
